@@ -152,6 +152,14 @@ def eval_finite(case):
             return False
         return True
 
+    def sign_ambiguous():
+        # apply_JW_string_left_of_virt_leg documents: "we may lose an overall, global minus sign in the case that
+        # some B tensors have non-trivial qtotal" -- the same holds for a charged left-most virtual leg
+        # (e.g. after spatial_inversion): then only the state up to a global sign is specified
+        if psi.chinfo.qnumber == 0:
+            return False
+        return any(np.any(B.qtotal != 0) for B in psi._B) or bool(np.any(psi._B[0].get_leg('vL').charges != 0))
+
     for step in case['steps']:
         if oracle:
             break
@@ -175,8 +183,11 @@ def eval_finite(case):
                 n0 = psi.norm
                 m = sites[i].get_op(name).to_ndarray()
                 is_unitary = np.linalg.norm(m @ m.conj().T - np.eye(len(m))) < 1e-13
+                amb = sites[i].op_needs_JW(name) and sign_ambiguous()
                 psi.apply_local_op(i, name, unitary=unitary, renormalize=renorm)
                 vec = new if not renorm else new / np.linalg.norm(new) * np.linalg.norm(vec)
+                if amb and np.linalg.norm(mc.np_state(psi).reshape(-1) + vec) < np.linalg.norm(mc.np_state(psi).reshape(-1) - vec):
+                    vec = -vec
                 if renorm and abs(psi.norm - n0) > 1e-12 * max(1, n0):
                     oracle.append(('C09.apply_local_op.renormalize-norm', '%r -> %r' % (n0, psi.norm)))
                 check('C09.apply_local_op' + ('.JW' if sites[i].op_needs_JW(name) else ''))
@@ -223,8 +234,11 @@ def eval_finite(case):
                 new = D.term(term) @ vec
                 if np.linalg.norm(new) < 1e-3 * np.linalg.norm(vec):
                     continue
+                amb = sign_ambiguous() and any(sites[i].op_needs_JW(nme) for nme, i in term)
                 psi.apply_local_term(term)
                 vec = new
+                if amb and np.linalg.norm(mc.np_state(psi).reshape(-1) + vec) < np.linalg.norm(mc.np_state(psi).reshape(-1) - vec):
+                    vec = -vec
                 njw = sum(sites[i].op_needs_JW(nme) for nme, i in term)
                 check('C09.apply_local_term' + ('.JW' if njw else ''))
             elif step == 'swap':
@@ -336,9 +350,14 @@ def eval_finite(case):
                     room = sites[b].dim * (full[b + 1] + extra[b + 1]) - full[b]
                     extra[b] = rnd.randint(0, max(0, min(2, room)))
                 nprng = np.random.default_rng(rnd.getrandbits(31))
+                flipped = psi.chinfo.qnumber > 0 and psi._B[0].get_leg('vL').qconj == -1
                 try:
                     psi.enlarge_chi(extra, random_fct=lambda size: nprng.normal(size=size))
                 except ValueError as e:
+                    if flipped and any(extra):
+                        oracle.append(('C09.enlarge_chi[virtual legs with reversed qconj after spatial_inversion]',
+                                       'raises %r for extra=%r' % (str(e).splitlines()[0], extra)))
+                        break
                     if 'QR for Gram-Schmidt' in str(e) and psi.chinfo.qnumber > 0:
                         oracle.append(('C09.enlarge_chi[overcomplete charge block]', 'raises %r for extra=%r chi=%r' % (str(e), extra, chi0)))
                         break
